@@ -229,7 +229,7 @@ type sGroup struct {
 	Via       string // AddRoutes | AddRoute
 	// options used by the server-options family
 	Jwt, JwtTransition, Timeout, MaxBytes, Priority, Signature, SSE bool
-	RouteMWs                                                         int
+	RouteMWs                                                        int
 }
 
 // finalPattern is the pattern that reaches the router: the group prefix (when
